@@ -417,6 +417,12 @@ class Check:
         rc = 0
         lines = []
         reported = 0
+        # a concrete failing input outranks "proof / correspondence broken, nothing found": when one was found (and is not a listed
+        # known finding), the no-failing-input-found reports are dropped; found ones come first
+        def _is_known(rep):
+            return any(k["property"] == self.pid and rep.get("class") is not None and k.get("class") == rep.get("class") for k in kf.get("findings", []))
+        if any(f and not _is_known(rp) for (_, rp, f) in self.violations):
+            self.violations = [v for v in self.violations if v[2]]
         for what, replay, found in self.violations:
             cls = replay.get("class")
             known = [k for k in kf.get("findings", []) if k["property"] == self.pid and cls is not None and k.get("class") == cls]
